@@ -483,7 +483,8 @@ pub fn tpl_program(r: &mut Rng) -> String {
     let (c1, c2, c3, c4) = (cs[0], cs[1], cs[2], cs[3]);
     let n = r.range(2, 9);
     // shapes that took outside eyes to discover get extra weight
-    let shape = match r.below(31) {
+    let shape = match r.below(33) {
+        31 | 32 => return ragged_literal(r),
         28..=30 => return wide_program(r),
         26 | 27 => 103,
         24 | 25 => 102,
@@ -787,6 +788,85 @@ fn no_panic_fault_across_ffi(p: &mut Plan) {
     }
 }
 
+/// A relation literal of two to four rows over a small pool of field names; rows after the
+/// first drop, add, rename, reorder or un-name fields. Used as a source, a let-table, and the
+/// right-hand side of join / append.
+pub fn ragged_literal(r: &mut Rng) -> String {
+    let pool = ["a", "b", "c", "d", "x", "y", "z", "w"];
+    let width = r.range(2, 5);
+    let mut first: Vec<&str> = pool.to_vec();
+    r.shuffle(&mut first);
+    first.truncate(width);
+    let mut val = 0;
+    let mut row = |names: &[Option<&str>]| -> String {
+        let fs: Vec<String> = names
+            .iter()
+            .map(|n| {
+                val += 1;
+                match n {
+                    Some(n) => format!("{n} = {val}"),
+                    None => format!("{val}"),
+                }
+            })
+            .collect();
+        format!("{{{}}}", fs.join(", "))
+    };
+    let mut rows = vec![row(&first.iter().map(|n| Some(*n)).collect::<Vec<_>>())];
+    for _ in 0..r.range(1, 3) {
+        let mut names: Vec<Option<&str>> = first.iter().map(|n| Some(*n)).collect();
+        for _ in 0..r.range(0, 3) {
+            match r.below(6) {
+                // two or three fields the first row does not have
+                0 => {
+                    let mut extra: Vec<&str> = pool.iter().copied().filter(|p| !first.contains(p)).collect();
+                    r.shuffle(&mut extra);
+                    let k = r.range(2, 3).min(extra.len());
+                    let at = names.len().saturating_sub(k);
+                    for (j, e) in extra.iter().take(k).enumerate() {
+                        if at + j < names.len() {
+                            names[at + j] = Some(e);
+                        } else {
+                            names.push(Some(e));
+                        }
+                    }
+                }
+                // drop one to three fields
+                1 => {
+                    for _ in 0..r.range(1, 3) {
+                        if names.len() > 1 {
+                            let i = r.below(names.len());
+                            names.remove(i);
+                        }
+                    }
+                }
+                // add fields
+                2 => {
+                    for p in pool.iter().filter(|p| !first.contains(p)).take(r.range(1, 3)) {
+                        names.push(Some(p));
+                    }
+                }
+                3 => r.shuffle(&mut names),
+                4 => {
+                    let i = r.below(names.len());
+                    names[i] = None;
+                }
+                _ => {}
+            }
+        }
+        rows.push(row(&names));
+    }
+    let lit = format!("[{}]", rows.join(", "));
+    let t = r.pick(TABLES);
+    let f0 = first[0];
+    match r.below(5) {
+        0 => format!("from {lit}\n"),
+        1 => format!("from {lit} | select {{{f0}}} | sort {f0} | take {}\n", r.range(1, 9)),
+        2 => format!("let lit = {lit}\nfrom {t} | join l = lit ({t}.id == l.{f0}) | select {{{t}.id, l.{f0}}}\n"),
+        3 => format!("from {lit} | append {lit}\n"),
+        _ => format!("let lit = {lit}\nfrom lit | derive q = {f0} + 1 | filter q > 2\n"),
+    }
+}
+
 /// Does the text hold a token of more than fifty columns that no formatter can break?
 pub fn is_wide(src: &str) -> bool {
     let mut run = 0usize;
@@ -850,7 +930,36 @@ pub fn err_program(r: &mut Rng) -> String {
     r.shuffle(&mut cs);
     let (c1, c2, c3, c4) = (cs[0], cs[1], cs[2], cs[3]);
     let n = r.range(2, 9);
-    match r.below(44) {
+    match r.below(50) {
+        // relation literals whose rows do not agree: fields missing, extra, renamed, reordered
+        // or unnamed relative to the first row (whatever checks or aligns rows enumerates names)
+        44..=46 => ragged_literal(r),
+        // the same named argument given twice, for one, two or three different names, in a
+        // function call, a transform or the `prql` header (several errors on one span)
+        47..=49 => {
+            let names = ["n", "m", "k", "side", "rows", "range", "by"];
+            let k = r.range(1, 3);
+            let mut args = Vec::new();
+            let mut idx: Vec<usize> = (0..names.len()).collect();
+            r.shuffle(&mut idx);
+            for j in 0..k {
+                let nm = names[idx[j]];
+                for rep in 0..r.range(2, 3) {
+                    args.push(format!("{nm}:{}", j * 3 + rep + 1));
+                }
+            }
+            if r.below(2) == 0 {
+                r.shuffle(&mut args);
+            }
+            let a = args.join(" ");
+            match r.below(5) {
+                0 => format!("from {t} | derive r = (round {c1} {a})\n"),
+                1 => format!("let f = func n:1 m:2 k:3 x -> x + n + m + k\nfrom {t} | derive y = (f {a} {c1}) | select {{y, {c2}}}\n"),
+                2 => format!("from {t} | join {a} {u} (=={c1}) | take {n}\n"),
+                3 => format!("prql {a} target:sql.generic\n\nfrom {t} | select {{{c1}}}\n"),
+                _ => format!("from {t} | window {a} (derive s = sum {c1}) | sort {c2} {a}\n"),
+            }
+        }
         // near-miss names: a name that is one slip away from one, two or three declared names
         // (a "did you mean" list, a candidate search) in function, transform and column position
         38 | 39 => {
